@@ -76,7 +76,9 @@ func productFor(base *sim.Scenario, name string, full bool, g *prng.R, emit func
 		return
 	}
 	isPost := strings.HasPrefix(rq.Kind, "Post")
-	methods := []string{"GET", "POST", "PUT", "DELETE", "HEAD"}
+	// method tokens are case-sensitive (RFC 7231 section 4.1): "get" and
+	// "Post" are other methods than GET and POST
+	methods := []string{"GET", "POST", "PUT", "DELETE", "HEAD", "get", "post", "Post", "Get", "PATCH", "OPTIONS"}
 	hv := headerVariants()
 	protoCombos := [][2]bool{{true, true}, {true, false}, {false, true}, {false, false}}
 	var bodies []struct {
